@@ -1,3 +1,12 @@
 import Eliot.Properties.C09
 #print axioms PM.Tree.step
 #print axioms PM.Tree.stepC
+#print axioms PM.Task.add_step
+#print axioms PM.Parser.add_step
+#print axioms PM.C09.feed_ok
+#print axioms PM.C09.subset_no_error
+#print axioms PM.C09.parse_perm_invariant
+#print axioms PM.C09.complete_iff_all_arrived
+#print axioms PM.C09.never_early
+#print axioms PM.C09.yield_exactly_once
+#print axioms PM.C09.reconstruct
